@@ -43,6 +43,11 @@ var todoComments = []string{
 
 func (g *wgen) comment() []string {
 	g.use("todo-comment")
+	if g.r.Chance(1, 25) {
+		g.use("comment-raw-control-or-supplementary")
+		c := g.pick(rawChars)
+		return []string{g.pick([]string{"// TODO: " + c + " raw", "/* FIXME(x): a" + c + "b */", "// " + c, "// TODO(" + c + "): y", "/** TODO " + c + g.pick(rawChars) + " */"})}
+	}
 	return strings.Split(g.pick(todoComments), "\n")
 }
 
@@ -104,6 +109,15 @@ func (g *wgen) localVar() string {
 	switch r.Intn(8) {
 	case 0:
 		g.use("var")
+		switch r.Intn(5) {
+		case 0:
+			// the initialiser is directly an array creation (primitive or class element type)
+			g.use("array-creation")
+			return mods + "var " + g.lname() + " = new " + g.pick(append([]string{"String", "Foo"}, primitiveNames...)) + g.pick([]string{"[" + g.expr(2).s + "]", "[2][]", "[]" + g.arrayInit(1, 1), "[][]" + g.arrayInit(1, 2)})
+		case 1:
+			// ... or directly an object creation of any form
+			return mods + "var " + g.lname() + " = " + g.creation(min(g.ed(), 4)).s
+		}
 		return mods + "var " + g.lname() + " = " + g.expr(g.ed()).s
 	case 1:
 		g.use("multi-declarator")
@@ -290,6 +304,30 @@ func (g *wgen) loopBody(header string, d int) []string {
 	return withBlock(header, body, "")
 }
 
+// returnStmt: a return of a value in the forms the passes look at specially (null, a conditional with null, a class
+// literal, a fraction-only literal, a parenthesised value) or of any expression.
+func (g *wgen) returnStmt() string {
+	r := g.r
+	switch r.Intn(12) {
+	case 0:
+		return "return null;"
+	case 1:
+		g.use("ternary")
+		return "return " + g.need(2, pInstanceof).s + " ? null : " + g.need(2, pTernary).s + ";"
+	case 2:
+		g.use("class-literal")
+		return "return " + g.pick([]string{"Foo.class", "int[].class", "void.class", "java.util.List.class", "Ünit.class", "(String.class)"}) + ";"
+	case 3:
+		g.use("literal-float")
+		return "return " + g.pick([]string{".5", ".25f", ".0e0", "-.5", ".5 * " + g.lname()}) + ";"
+	case 4:
+		return "return (" + g.pick([]string{"null", g.lname(), "(null)"}) + ");"
+	case 5:
+		return "return;"
+	}
+	return "return " + g.expr(g.ed()).s + ";"
+}
+
 // stmt generates one statement (d = remaining block nesting).
 func (g *wgen) stmt(d int) []string {
 	r := g.r
@@ -298,7 +336,7 @@ func (g *wgen) stmt(d int) []string {
 		case 0:
 			return []string{g.localVar() + ";"}
 		case 1:
-			return []string{"return " + g.expr(g.ed()).s + ";"}
+			return []string{g.returnStmt()}
 		default:
 			return []string{g.stmtExpr(g.ed()) + ";"}
 		}
@@ -318,7 +356,17 @@ func (g *wgen) stmt(d int) []string {
 		}
 		if r.Bool() {
 			last := out[len(out)-1]
-			out = append(out[:len(out)-1], withBlock(last+" else", g.body(d), "")...)
+			eb := g.body(d)
+			if r.Chance(2, 5) {
+				// an else block that holds exactly one declaration (no statement)
+				g.use("else-block-single-declaration")
+				if r.Chance(1, 3) && g.budget > 3 {
+					eb = g.localType(0)
+				} else {
+					eb = []string{g.localVar() + ";"}
+				}
+			}
+			out = append(out[:len(out)-1], withBlock(last+" else", eb, "")...)
 		}
 		return out
 	case 7:
@@ -385,7 +433,7 @@ func (g *wgen) stmt(d int) []string {
 		}
 		return []string{g.localVar() + ";"}
 	case 23:
-		return []string{"return " + g.expr(g.ed()).s + ";"}
+		return []string{g.returnStmt()}
 	case 24:
 		// switch expression as initialiser / return value
 		e := g.switchExpr(3)
